@@ -354,7 +354,7 @@ func genLockDiscipline(sb *strings.Builder) error {
 		{"peering", "peering", []string{"Peering.AddLink", "Peering.RemoveLink", "Peering.GetLink", "Peering.GetLinkByLabel", "Peering.GetLinkByRemoteHost", "Peering.GetLinks", "Peering.LinkCnt", "Peering.IsStub",
 			"Peering.copyLinksWithLocking", "Peering.AddListener", "Peering.GetListener", "Peering.RemoveListener", "Peering.copyListenersWithLocking", "Peering.AddProtocol", "Peering.GetProtocol"}},
 		{"state", "state", []string{"EncryptionSession.In", "EncryptionSession.Out", "EncryptionSession.InitKeyClientStart", "EncryptionSession.InitKeyServer", "EncryptionSession.InitKeyClientComplete",
-			"EncryptionSession.DeriveSessionFromKX", "EncryptionSession.IsSetUp", "SequenceHandler.Check", "SequenceHandler.Ack", "SequenceHandler.Reset", "SequenceHandler.ResetIn", "SequenceHandler.RolloverRequired",
+			"EncryptionSession.DeriveSessionFromKX", "EncryptionSession.InitCleanup", "EncryptionSession.IsSetUp", "SequenceHandler.Check", "SequenceHandler.Ack", "SequenceHandler.Reset", "SequenceHandler.ResetIn", "SequenceHandler.RolloverRequired",
 			"TimeSequenceHandler.Check", "TimeSequenceHandler.Next", "Session.Signing", "Session.Encryption", "Session.SetEncryptionSession", "Session.inUse", "Session.killable", "State.GetSession", "State.cleanSessions"}},
 		{"router", "router", []string{"HelloPingHandler.Send", "HelloPingHandler.getActive", "HelloPingHandler.setActive", "HelloPingHandler.Clean", "PingPongHandler.getActive", "PingPongHandler.setActive",
 			"PingPongHandler.pluckActive", "PingPongHandler.Clean", "ErrorPingHandler.getOrCreateState", "ErrorPingHandler.Clean", "Router.getConnState", "Router.setConnState", "Router.markConnectionDst", "Router.markRouter",
